@@ -681,13 +681,15 @@ func (gen *Generator) GenerateCallBySymbol(sym *SexpSymbol, args []Sexp, orig Se
 			return err
 		}
 		// to do a tail call
-		// pop off all the extra scopes
-		// then jump to beginning of function
-		for i := 0; i < gen.scopes; i++ {
+		// pop off all the extra scopes and the function's own scope,
+		// then jump to beginning of function, where a fresh function
+		// scope is added: closures created by earlier iterations keep
+		// the parameters they captured.
+		for i := 0; i < gen.scopes+1; i++ {
 			gen.AddInstruction(RemoveScopeInstr{})
 		}
 		gen.AddInstruction(PrepareCallInstr{sym, len(args)})
-		gen.AddInstruction(GotoInstr{1}) // goto 1 instead of 0 to avoid adding a new scope
+		gen.AddInstruction(GotoInstr{0})
 	} else {
 		gen.AddInstruction(CallExprInstr{callee: sym, args: append([]Sexp(nil), args...)})
 	}
